@@ -51,7 +51,8 @@ func (a Attack) String() string {
 
 var forgeries = []string{"flag-cleared-trailer-kept", "flag-cleared-no-trailer", "authcode-empty", "authcode-short", "authcode-random", "authcode-k2", "authcode-sik", "authcode-zero-key",
 	"authcode-other-session", "authcode-range-skips-first-byte", "authcode-range-includes-rmcp", "authcode-range-excludes-trailer", "wrong-session-id", "plaintext-unsigned",
-	"plaintext-unsigned-wrong-id", "flag-set-no-trailer", "flag-set-ff-only", "plaintext-flag-set-no-trailer", "plaintext-flag-set-ff-only", "pad-bytes-wrong", "pad-length-large", "pad-longer-than-data"}
+	"plaintext-unsigned-wrong-id", "flag-set-no-trailer", "flag-set-ff-only", "plaintext-flag-set-no-trailer", "plaintext-flag-set-ff-only", "pad-bytes-wrong", "pad-length-large", "pad-longer-than-data",
+	"addressed-to-bmc-session-id", "addressed-to-null-session", "addressed-to-byteswapped-id"}
 
 // commands with a response body whose value the forger changes
 var cmdNames = []string{"GetSystemGUID", "GetDeviceID", "GetChannelAuthenticationCapabilities"}
@@ -148,6 +149,18 @@ func attackDatagram(a Attack, R []byte, s *simbmc.Session, b *simbmc.BMC, other 
 		p.rangeStart = 1000
 	case "wrong-session-id":
 		p.sid = s.ConsoleID ^ (1 << uint(a.Param%32))
+	case "addressed-to-bmc-session-id":
+		// fully signed and encrypted, but carrying the managed system's ID for the
+		// session (the one the console puts in its requests) instead of the console's
+		p.sid = s.ID
+	case "addressed-to-null-session":
+		p.sid = 0
+	case "addressed-to-byteswapped-id":
+		c := s.ConsoleID
+		p.sid = c<<24 | c>>24 | (c&0xff00)<<8 | (c>>8)&0xff00
+		if p.sid == c {
+			p.sid = ^c
+		}
 	case "flag-set-no-trailer":
 		p.trailer = false
 	case "flag-set-ff-only":
